@@ -40,6 +40,7 @@ def identity_keyed(tree_nodes):
 
 
 def check(run):
+    rules_hooks(run)
     prog = run.prog
     r = run.rule('C18.1', 'no identity-keyed persistent state: no field of an object reachable from Interpreter is indexed by id(..)')
     with open(FIXTURE) as fh:
@@ -153,3 +154,60 @@ def check(run):
                                         bad = d
                             run.check(bad is None, r, m.short, 'self.%s = %s' % (t.attr, q.unparse(node.value)[:40]), 'an unpicklable %s is stored on the object' % bad, node)
     run.floor(n, 40, r, 'field assignments in reachable classes')
+
+
+def rules_hooks(run):
+    r = run.rule('C18.5', 'copy / pickle hooks of reachable classes: __deepcopy__/__copy__ never hand back the object itself; __setstate__ restores fields from the pickled '
+                          'state only; __getstate__ drops nothing but lazily rebuilt caches')
+    prog = run.prog
+    n = 0
+    for cname in REACHABLE_CLASSES:
+        if not prog.has_cls(cname):
+            continue
+        ci = prog.cls(cname)
+        for hook in ('__deepcopy__', '__copy__', '__reduce__', '__reduce_ex__', '__setstate__', '__getstate__', '__getnewargs__'):
+            m = ci.methods.get(hook)
+            if m is None:
+                continue
+            n += 1
+            M = m.node
+            ps = q.param_names(M)
+            if hook in ('__deepcopy__', '__copy__'):
+                rets = [x for x in q.walk(M, False) if isinstance(x, ast.Return)]
+                shared = [x for x in rets if x.value is not None and q.unparse(x.value) == ps[0]]
+                run.check(not shared, r, m.short, 'a copy is a new object', 'the copy hook returns the object itself: the copied interpreter shares this state with the original', M)
+            elif hook == '__setstate__':
+                sp = ps[1] if len(ps) > 1 else None
+                for c, f, k, node in prog.direct_writes(m):
+                    if not isinstance(node, (ast.Assign, ast.AugAssign)):
+                        continue
+                    names = set()
+                    for x in ast.walk(node.value):
+                        if isinstance(x, ast.Name):
+                            names.add(x.id)
+                        if isinstance(x, ast.Attribute) and isinstance(x.value, ast.Name) and x.value.id == ps[0]:
+                            names.add(ps[0] + '.' + x.attr)
+                    foreign = sorted(x for x in names if x != sp and not (x.isidentifier() and any(
+                        sp in {y.id for y in ast.walk(v) if isinstance(y, ast.Name)} for st, v in q.assigned_value(M, x))))
+                    run.check(not foreign, r, m.short, 'field %s restored from the pickled state' % f,
+                              'field %s is (re)computed from %s on restore instead of being restored: the restored interpreter differs from the original' % (f, foreign), node)
+                ups = [c_ for c_ in q.calls(M) if q.unparse(c_.func) in (ps[0] + '.__dict__.update',)]
+                for c_ in ups:
+                    run.check(c_.args and q.unparse(c_.args[0]) == sp, r, m.short, '__dict__ restored from the pickled state', 'differs', c_)
+            elif hook == '__getstate__':
+                if (cname, hook) in (('PythonEvaluator', '__getstate__'),):
+                    run.ok(r, m.short, 'dict-copy with overrides, checked by C18.2/C18.3', M)
+                    continue
+                rets = [x for x in q.walk(M, False) if isinstance(x, ast.Return)]
+                slots = [x for x in ci.node.body if isinstance(x, ast.Assign) and q.unparse(x.targets[0]) == '__slots__']
+                fields = sorted(q.const_str(e) for e in slots[0].value.elts) if slots else None
+                if fields is not None and len(rets) == 1:
+                    txt = q.unparse(rets[0].value)
+                    missing = [f for f in fields if (ps[0] + '.' + f) not in txt and (ps[0] + '.' + f.lstrip('_')) not in txt and f not in txt]
+                    run.check(not missing, r, m.short, 'every slot is part of the pickled state', 'slots %s are not pickled' % missing, M)
+                else:
+                    over = [x for x in q.walk(M, False) if isinstance(x, ast.Assign) and isinstance(x.targets[0], ast.Subscript)]
+                    run.check(not over, r, m.short, 'nothing is dropped from the pickled state', 'fields are overridden in the pickled state: %s' % [q.unparse(x.targets[0]) for x in over], M)
+            else:
+                run.fail(r, m.short, 'custom %s' % hook, 'a reduction hook not covered by the confirmed table', M)
+    run.floor(n, 5, r, 'copy/pickle hooks')
